@@ -25,6 +25,11 @@ CHECKS = {
         technique="TLA+ contract (SigStoreAbs + TMigrate: a success is never short) and design specs SigStoreJson/SigStorePebble model-checked by TLC; recorded migrate/export/add/get traces incl. every truncation point validated by TLC; SaveDatabase's strace'd system-call sequence validated against SaveSpec with a crash explored after every prefix",
         text="TLC validates traces of the real stores: migrate+export round trips (repeated IDs, lists crossing the 1000-entry batch boundary), every byte-truncation point of an encoded file (error or complete result, never a short success), add/addbatch/get with full field-for-field payload equality on both back ends, save+load; the atomic-save clause is decided on the real system-call sequence by a TLA+ protocol spec that explores a crash after each call.",
         note=TRUST + "; rename(2) atomic and ordered after fsync; migrated IDs non-empty"),
+    "C11": dict(
+        level="model_checking", ref="3/C11",
+        technique="TLA+ design spec SigStoreConc (reader steps x atomic writer commits, all interleavings, TLC) and linearisation contract Trace_SigStoreConc: TLC-generated interleavings replayed deterministically through gate hooks, stress traces under the race detector; TLC chooses linearisation points to explain every recorded call/ret trace",
+        text="TLC exhausts the interleavings of one scan (snapshot, config read, index iteration, per-hit fetch) with writer commits and rebuild phases in the design model (and shows the model is sensitive: reading outside the snapshot violates it). The code is bound in both directions: TLC interleavings are replayed with the gates as a scheduler, and free-running stress executions (3 writers + 4 readers, both back ends, -race) are recorded; every trace must be explainable by SOME linearisation in which each scan result is the contract's result for one committed state of its window.",
+        note=TRUST + "; data-race clause decided by the Go race detector on the same executions; verdicts never depend on sleeps, only on call/ret order"),
 }
 
 NOT_YET = {}
